@@ -436,12 +436,12 @@ Definition sop_sym (o : sop) : sym :=
   | SWgWaitTimers => YWgWait RWgTimers
   | SCloseDealer => YClose RDealerAct | SRecvDealerStopped => YRecv RStoppedDealer
   | SCloseBroker => YClose RBrokerAct | SRecvBrokerStopped => YRecv RStoppedBroker
-  | SClosePeers _ | SClosePeer _ => YPeerClose
+  | SClosePeers => YPeerClose
   | SCloseRealm => YClose RRealmAct | SRecvRealmStopped => YRecv RStoppedRealm
   end.
 
 Definition expected_realm_close : list elem :=
-  map (fun o => (sop_sym o, false)) (realm_close_seq all_fixed 0).
+  map (fun o => (sop_sym o, false)) (realm_close_seq all_fixed).
 
 Definition expected_dealer_close : list elem :=
   map (fun o => (sop_sym o, false)) (dealer_close_seq all_fixed).
